@@ -352,7 +352,9 @@ impl<'t> Gen<'t> {
                     2 => {
                         // * small literal
                         let l = self.leaf(scope, ty);
-                        let r = self.small_int_lit(false);
+                        // nonzero: x * 0 is -0.0 for negative doubles, and the
+                        // engine's DISTINCT/GROUP BY keep -0.0 and 0.0 apart
+                        let r = self.small_int_lit(true);
                         Expr::Bin(BinOp::Mul, Box::new(l), Box::new(r))
                     }
                     3 => {
@@ -959,7 +961,7 @@ impl<'t> Gen<'t> {
         }
         let (mut limit, mut offset) = (None, None);
         // a sort is a pipeline breaker: the join pipeline always runs to completion
-        let limit_ok = self.f.limit_over_drain_joins || !order_by.is_empty() || !set_has_drain_join_or_subquery(&body, &ctes);
+        let limit_ok = self.f.limit_over_drain_joins || !order_by.is_empty() || (!set_has_drain_join_or_subquery(&body, &ctes) && !matches!(body, SetExpr::Union { .. }));
         if self.f.limit && limit_ok && self.rng.chance(1, 4) {
             limit = Some(*self.rng.pick(&[0u64, 1, 1, 2, 3, 5, 10, 100]));
             if self.rng.chance(1, 3) {
